@@ -35,6 +35,10 @@ CHECKS = {
          "explicit-state, deviation-bounded search over operation histories and reader answers on the real StreamLexer with a lock-step reference cursor and a ledger of returned slices",
          "For each case (data, initial buffer size incl. 0 and default, reader ending with EOF or failing at offset f, start state initial or after 1-4 canonical token-loop iterations) a BFS explores every contract-respecting history up to the depth bound; each Read call of the environment is a choice point (fill, zero-length, 1, 2, all-but-one, error/EOF together with the last bytes) within a deviation bound; states are de-duplicated on a reflective key of the private state. After every step all results are compared with a cursor over the completely read input, Err() against the three clauses, ShiftLen against shifted+skipped, and every unfreed slice returned by Shift/Lexeme against its bytes. Periodic streams check that held capacity does not grow between 128 and 256 tokens.",
          "Bounds: depth 7 (quick) / 9 (thorough) operations beyond the start state, <=2/3 reader deviations, data <=10 bytes. Known finding: Lexeme() slices of the unfinished token are not preserved across a refill (see known_findings.txt)."),
+ "C14": ("exploration",
+         "bounded-exhaustive enumeration of numeric strings and of boundary value families x precision/format configurations against strconv and math/big",
+         "Parsers: every string of <=7 (8) characters over {+ - 0 1 5 9 . e E x} and every single-edit neighbour of ~90 boundary numerals (int64/uint64 limits, 19-21 digit runs, exponent windows, subnormals, 300-digit literals) is compared with strconv on the longest syntactic prefix (exact for integers, 1e-14 relative for floats). Formatters: AppendInt/LenInt on all +-(10^k+d), +-(2^k+d); AppendNumber->ParseNumber round trip on that family x dec 0..18 x groupSize 0..6 x ordered pairs of distinct 1-4 byte symbols; AppendFloat on m*10^e (e in [-330,310], both signs) x prec -1..18 checked with big.Float for well-formedness, sign and distance to the argument; AppendDecimal x dec 0..18 against big.Rat rounding half away from zero; prefix bytes preserved at cap==len and with room.",
+         "Bounds: m<=99 quick / 999 thorough. Tolerances stated in the evidence: subnormal results within 2 units of the last place or 1e-14 relative; AppendFloat within one unit of the requested last digit plus 8 ulp of float64 scaling; AppendDecimal accepted within half a unit of the last decimal plus 8 ulp when 17+ digits are requested."),
  "C16": ("exploration",
          "bounded-exhaustive enumeration of argument strings per helper against independent reference definitions (regexp, net/url, encoding/base64, mime, bytes, a plain map built from the hash constants in the current source)",
          "Every string up to the bound over an alphabet built around each helper's syntax boundaries (and all 256 byte values for the byte-indexed tables) is fed to Number, Dimension, EncodeURL (both tables, three capacities), DecodeURL, DataURI (generated URIs with exact expected payload/type, and arbitrary fragment soups), Mediatype (fragment soups and every spacing of up to 2-3 distinct parameters), EqualFold, ToLower, TrimWhitespace, IsAllWhitespace, IsWhitespace, IsNewline and css/html ToHash (every constant, case variants, all single-edit neighbours, all short strings over the tables' letters); results must equal the reference; arguments must not be modified; any panic is a violation.",
